@@ -6,6 +6,8 @@
 From EG Require Import Base.Prelude Base.Casts Model.Geometry Model.Rawdata Model.Imageraw.
 From EG Require Import Gen.SrcGeometry Gen.SrcImage Gen.SrcRawIter Gen.SrcImagePixels Proofs.SrcColor.
 Set Default Timeout 60.
+(* Model/Imageraw.v fixes usize at 64 bit (its usize_max): the generated definitions are taken at that width *)
+#[local] Existing Instance Casts.usize64_w.
 
 Lemma it_next_eq bpp alt d i :
   src_RawDataIterator_next (raw_load bpp alt) (It d i) = (It d (snd (raw_next bpp alt d i)), fst (raw_next bpp alt d i)).
@@ -19,7 +21,7 @@ Lemma it_nth_eq bpp alt d i n : 0 <= i -> 0 <= n ->
 Proof.
   intros Hi Hn. unfold src_RawDataIterator_nth, raw_nth. cbn [it_data it_index].
   assert (E : Casts.sat_add_usize i n = sat_add_usize i n).
-  { unfold Casts.sat_add_usize, Casts.clamp, sat_add_usize, Casts.min_usize, Casts.max_usize, usize_max. lia. }
+  { unfold Casts.sat_add_usize, Casts.clamp, sat_add_usize, Casts.min_usize, usize_max. cbn [Casts.usize_max_w Casts.usize64_w]. unfold Casts.max_usize. lia. }
   rewrite E, it_next_eq. reflexivity.
 Qed.
 
